@@ -759,7 +759,18 @@ func (g *Gen) genPlaceBid(t *rapid.T, w *World, s *Snap) Op {
 		return o
 	}
 	var cap *big.Int
-	if len(allowed) > 0 && pct(t, 93, "bid-allowed") {
+	// an account that is listed (and has bid) on another auction but not on this one
+	var foreign []int
+	for _, ob := range s.Bids {
+		if ob.Auction != a.ID && s.Cap(a.ID, ob.Bidder) == nil && AddrIndex(ob.Bidder) >= 0 {
+			foreign = append(foreign, AddrIndex(ob.Bidder))
+		}
+	}
+	if len(foreign) > 0 && pct(t, 6, "bid-foreign") {
+		o.Signer = pick(t, "bid-foreign-bidder", foreign)
+		cap = bcopy(a.SellAmt)
+		g.label("bid:listed-on-another-auction-only")
+	} else if len(allowed) > 0 && pct(t, 93, "bid-allowed") {
 		ab := pick(t, "bid-bidder", allowed)
 		o.Signer = AddrIndex(ab.Bidder)
 		cap = ab.Max
